@@ -190,8 +190,10 @@ theorem backup_count (cfg : Cfg) (s : St) (ops : List Op) (h0 : ∀ j, cfg.maxBa
 
 /-! ## Close and re-open -/
 
-/-- `Close` is idempotent and never touches the directory; a restart (`New` on the same path) neither -/
-theorem close_laws (s : St) :
+/-! in the model `Close` only drops the handle and a restart only forgets handle and counter, so these hold by
+    construction (the evidence that the code's `Close` leaves the directory alone is the differential run, which
+    compares the whole directory after every operation) -/
+example (s : St) :
     close (close s) = close s ∧ (close s).files = s.files ∧ (reopen s).files = s.files ∧ reopen (reopen s) = reopen s :=
   ⟨rfl, rfl, rfl, rfl⟩
 
@@ -210,49 +212,68 @@ theorem close_reopen_invisible (cfg : Cfg) (s : St) (ops : List Op) (ht : Track 
     (run cfg s ops).files = (run cfg s (ops.filter Op.isWrite)).files :=
   run_files_filter cfg s s ops ht ht rfl
 
-/-! ## concurrent writers — method-level serialisation only -/
+/-- the totalisation `(files 0).getD []` in the model's write is never exercised on a reachable state: when `Write`
+    reaches the size test the current file exists (the open block created it or found it).  (A state with an open
+    handle but no file — the file removed behind the rotator's back — is not reachable; there the Go code would write
+    to an unlinked inode, which the model does not describe.) -/
+theorem current_file_exists_at_write (cfg : Cfg) (f : Files) (ops : List Op) :
+    ∃ c, (openIfNeeded (run cfg (fresh f) ops)).files 0 = some c := by
+  obtain ⟨h1, h2⟩ := track_open _ (reachable_in_step cfg f ops)
+  obtain ⟨c, hc, _⟩ := h1 h2
+  exact ⟨c, hc⟩
 
-/-- an order-preserving merge of two writers' own sequences of calls -/
-inductive Merge : List Op → List Op → List Op → Prop where
-  | nil : Merge [] [] []
-  | left {o a b c} : Merge a b c → Merge (o :: a) b (o :: c)
-  | right {o a b c} : Merge a b c → Merge a (o :: b) (o :: c)
+/-! ## restarts with other limits
 
-/-- the sequential core used by the concurrency section below (`concurrent_writes_never_interleave` shows that every
-    schedule of bracketed calls IS such a merge): for every order-preserving merge `ops` of two writers' calls the
-    retained files are a suffix of the records in merge order — each retained record contiguous, each writer's records
-    in its own order. -/
-theorem serialised_writers (cfg : Cfg) (s : St) (w₁ w₂ ops : List Op) (h : Merge w₁ w₂ ops) :
-    (∃ pre, retained cfg s.files ++ (writesOf ops).flatten = pre ++ retained cfg (run cfg s ops).files) ∧
-    ∃ m : List Op, Merge (w₁.filter Op.isWrite) (w₂.filter Op.isWrite) m ∧ writesOf m = writesOf ops := by
-  refine ⟨run_suffix cfg s ops, ?_⟩
-  induction h with
-  | nil => exact ⟨[], Merge.nil, rfl⟩
-  | @left o a b c _ ih =>
-    obtain ⟨m, hm, he⟩ := ih
-    cases o with
-    | write x => exact ⟨.write x :: m, by simpa [List.filter, Op.isWrite] using Merge.left hm, by simp [writesOf, he]⟩
-    | close => exact ⟨m, by simpa [List.filter, Op.isWrite] using hm, by simp [writesOf, he]⟩
-    | reopen => exact ⟨m, by simpa [List.filter, Op.isWrite] using hm, by simp [writesOf, he]⟩
-    | sync => exact ⟨m, by simpa [List.filter, Op.isWrite] using hm, by simp [writesOf, he]⟩
-  | @right o a b c _ ih =>
-    obtain ⟨m, hm, he⟩ := ih
-    cases o with
-    | write x => exact ⟨.write x :: m, by simpa [List.filter, Op.isWrite] using Merge.right hm, by simp [writesOf, he]⟩
-    | close => exact ⟨m, by simpa [List.filter, Op.isWrite] using hm, by simp [writesOf, he]⟩
-    | reopen => exact ⟨m, by simpa [List.filter, Op.isWrite] using hm, by simp [writesOf, he]⟩
-    | sync => exact ⟨m, by simpa [List.filter, Op.isWrite] using hm, by simp [writesOf, he]⟩
+`Rot.runSegs`: a history in segments, every segment a new `Rotator` with its OWN `MaxSize`/`MaxBackups` on the same
+path (the driver's `reopen <opts>`).  All one-step theorems above hold in every segment (they are for any state in
+step, and `restart_in_step` keeps states in step); across segments: -/
 
-/-! ## concurrent goroutines — the mutex bracket as a theorem
+/-- every state reached across restarts with changing limits is in step -/
+theorem restart_in_step (f : Files) (segs : List (Cfg × List Op)) : Track (runSegs (fresh f) segs) :=
+  track_runSegs _ segs (track_fresh f)
+
+/-- size bound across restarts: every file is at most the MaxSize of SOME segment long, or is exactly one record written,
+    or is an untouched initial file -/
+theorem size_bound_across_restarts (s : St) (segs : List (Cfg × List Op)) (i : Nat) (g : Bytes)
+    (h : (runSegs s segs).files i = some g) :
+    (∃ x ∈ segs, g.length ≤ x.1.maxSize) ∨ (∃ w ∈ writesOfSegs segs, g = w) ∨ (∃ j, s.files j = some g) :=
+  runSegs_pred s segs
+    (fun g => (∃ x ∈ segs, g.length ≤ x.1.maxSize) ∨ (∃ w ∈ writesOfSegs segs, g = w) ∨ (∃ j, s.files j = some g))
+    (fun x hx _ hf => Or.inl ⟨x, hx, hf⟩) (fun w hw => Or.inr (Or.inl ⟨w, hw, rfl⟩))
+    (fun j _ hf => Or.inr (Or.inr ⟨j, hf⟩)) i g h
+
+/-- backup frame across restarts: an index above every segment's MaxBackups is never touched; in particular, after
+    MaxBackups was lowered, the stale backups beyond the new limit are left exactly as they were -/
+theorem backup_frame_across_restarts (s : St) (segs : List (Cfg × List Op)) (j : Nat)
+    (hj : ∀ x ∈ segs, x.1.maxBackups < j) : (runSegs s segs).files j = s.files j :=
+  runSegs_frame s segs j hj
+
+/-- the suffix clause spans restarts as long as MaxBackups stays the same (MaxSize may change freely): the files
+    `path-B … path` are a suffix of the initial content followed by everything written in all segments.  (When MaxBackups
+    changes, `retained_is_suffix` still holds inside every segment, read with that segment's MaxBackups.) -/
+theorem retained_is_suffix_across_restarts (B : Nat) (s : St) (segs : List (Cfg × List Op))
+    (hB : ∀ x ∈ segs, x.1.maxBackups = B) :
+    ∃ pre, retainedUpTo s.files B ++ (writesOfSegs segs).flatten = pre ++ retainedUpTo (runSegs s segs).files B :=
+  runSegs_suffix B s segs hB
+
+/-! ## concurrent goroutines — theorems about the bracketed machine
 
 `Model/Mutex.lean` is a generic small-step machine: every goroutine runs its own list of calls, every call is
 `Lock(); micro-steps; Unlock()`, the scheduler picks any enabled goroutine at every step (one that wants the held mutex
 is not enabled).  `Lemmas/RotationConc.lean` gives the micro-steps of `Write` (open block, size test, rotate's close,
 `os.Remove`, every single `os.Rename`, reset, and the write BYTE BY BYTE), `Close`, `Sync`, restart, and proves that
-they compute the sequential model.  What remains an assumption of the check is only that the Go code really brackets
-every method with the mutex (tie: the `stress` oracle, whose judge is the conclusion below, also under `-race`). -/
+they compute the sequential model.
 
-/-- clause "concurrent writers never interleave bytes within one write": for EVERY schedule of any number of
+WHAT THESE THEOREMS ARE ABOUT: the machine, in which every call is wrapped in Lock/Unlock BY CONSTRUCTION.  They say
+"mutual exclusion ⇒ linearizable, dead-lock free, bounded" for the Rotator's micro-steps; they do not look at
+rotator.go.  Deleting `r.lock.Lock()` from the Go `Write`, or unlocking before `file.Write`, leaves every theorem of
+this section true.  That the code really brackets every method with the one mutex is NOT proved; its only tie is the
+`stress` oracle of the check (goroutines calling Write/Close/Sync on one Rotator, judged by the conclusion below), with
+and without the race detector — which is what catches exactly those edits (seeds own-c12-8/17/18/19/20, ind2-c12-a).
+`unbracketed_*` show that the same machine without the bracket violates the clause. -/
+
+/-- clause "concurrent writers never interleave bytes within one write", for the bracketed MODEL machine (see the section
+    header for what is and is not claimed about the code): for EVERY schedule of the machine, with any number of
     goroutines calling Write/Close/Sync in any programs, at every moment at which the mutex is free, the state (the
     directory included) is exactly that of the sequential model run on the calls in the order `ops` in which they
     acquired the mutex; `ops` is an interleaving of WHOLE calls with every goroutine's calls in its own order (its
